@@ -178,7 +178,7 @@ func runEndpoint(in Input) (res lib.Result) {
 		runs = append(runs, coqRunP(0, body.Flamebearer, 0, lib.Some(lib.Bytes([]byte(raw))), in.Default))
 		classes[paramClass(p)]++
 	}
-	coq := "{| c_tree := " + treeu.Coq(dump) + "; c_runs := " + lib.List(runs) + " |}"
+	coq := "{| c_tree := " + treeu.Coq(dump) + "; c_runs := " + lib.List(runs) + "; c_seq := [] |}"
 	nodes := treeu.Size(dump)
 	return lib.Result{
 		Coq:        coq,
